@@ -19,7 +19,7 @@ RULE = ("postconditions on QuadricTensor.components / is_degenerate and Conic.in
         "construction. Workload: every pair of distinct lines of {-2..2}^3 x {-1,0,1,3}^3 (all sign patterns), all pairs of planes of {-1,0,1}^4, random "
         "pairs, conic pairs through four chosen lattice points, circles, tangent and doubly tangent pairs. Non-trivial: >= 2 entries outside "
         "{0,1,-1}; distinct by operand digest."
-        " Conic.from_lines / Quadric.from_planes must report is_degenerate whatever the magnitude of the arguments (float representatives scaled by 0.125 ... 640), also after the pair was moved by an affine map and when intersected with a circle in both argument orders; reference points Newton-polished; pairs given in mixed representations (integer / non-integral float, int32 / int16) in both orders.")
+        " Conic.from_lines / Quadric.from_planes must report is_degenerate whatever the magnitude of the arguments (float representatives scaled by 0.125 ... 640), also after the pair was moved by an affine map and when intersected with a circle in both argument orders; reference points Newton-polished; pairs given in mixed representations (integer / non-integral float, int32 / int16) in both orders; a single plane against plane collections of 2, 4 and 5 planes in both argument orders; conic pairs with genuine three-point contact plus one simple common point.")
 SHARDS = (8, 16)
 REQUIRED = ["components", "is_degenerate", "conic_conic", "components.pair"]
 ASSUMPTIONS = ["numpy.roots trusted for the reference quartic", "components of a conic of rank 3 is a precondition violation and not judged"]
